@@ -155,6 +155,7 @@ def gen_case(rng, tier):
                 zero_row=(rng.randrange(R) if rng.random() < 0.25 else None),
                 affine=rng.choice([[2.0, 0.0], [0.5, 3.0], [3.0, -1.25], [8.0, 100.0], [2.0 ** -10, 0.0], [2.0 ** -12, 1.0], [2.0 ** -8, -0.5]]))
     case["xq"] = gen_images(rng, rng.choice([1, 2, 3]), C, H, W) if mode == "other" else None
+    case["warm_n"] = rng.choice([k for k in (2, 3, 4, 5, 8, 16, 32) if k != n]) if rng.random() < 0.5 else None
     return case
 
 
@@ -209,8 +210,9 @@ def build_models(case):
 
     class Head(nn.Module):
         """F-quad on the flat (channels-first) activation, float64; records what it receives and returns"""
-        def __init__(self, a=1.0, b=0.0):
+        def __init__(self, a=1.0, b=0.0, f32=False):
             super().__init__()
+            self.f32 = f32
             self.b = torch.tensor([k["b"] for k in ks], dtype=torch.float64)
             self.W = torch.tensor([k["W"] for k in ks], dtype=torch.float64)
             self.V = torch.tensor([k["V"] for k in ks], dtype=torch.float64)
@@ -230,7 +232,8 @@ def build_models(case):
                 cols.append(col)
             out = out + torch.stack(cols, dim=1)
             self.outputs.append(out.detach().numpy().copy())
-            return self.a * out + self.c
+            res = self.a * out + self.c
+            return res.float() if self.f32 else res        # f32: single-precision logits, as real networks produce
     return g, Head
 
 
@@ -297,6 +300,9 @@ def run_impl(case):
     if case["zero_row"] is not None:
         craft.factorization.concept_bank_w[case["zero_row"]] = 0.0
         bank_used = np.asarray(craft.factorization.concept_bank_w)
+    if case.get("warm_n"):
+        # history: importances were already estimated on this object with ANOTHER budget (global then local, two budgets)
+        craft.estimate_importance(None if case["mode"] == "global" else xq, nb_design=case["warm_n"])
     h.inputs, h.outputs = [], []
     if case["mode"] == "global":
         imp = craft.estimate_importance(nb_design=n)
@@ -329,6 +335,16 @@ def run_impl(case):
     a, b = case["affine"]
     craft.latent_to_logit_model = Head(a, b)
     imp_aff = np.asarray(craft.estimate_importance(None if case["mode"] == "global" else xq, nb_design=n))
+    # single-precision logits with an offset much larger than their spread (logit = 2 h + b, b ~ 4096..8192 std(f(A))):
+    # the indices must not move (two-pass variance: error ~ 1e-3; a one-pass E[v^2] - E[v]^2 in float32 is garbage)
+    if well_posed and finite and flags["head_calls"]:
+        s_min = min(float(np.std(row)) for row in rec_out[:, case["cls"]].reshape(len(xq_list), M)[:, :n])
+        if s_min > 0:
+            boff = float(2.0 ** np.ceil(np.log2(4096.0 * s_min)))
+            craft.latent_to_logit_model = Head(2.0, boff, f32=True)
+            imp_off = np.asarray(craft.estimate_importance(None if case["mode"] == "global" else xq, nb_design=n), dtype=np.float64)
+            flags["offset_invariance_float32_logits"] = bool(np.all(np.isfinite(imp_off))) and \
+                bool(np.all(np.abs(imp_off - imp) <= 2e-2 * (1.0 + np.abs(imp))))
     AB = scipy.stats.qmc.Halton(2 * R, scramble=False).random(n).astype(np.float32)
     return dict(flags=flags, crops=crops.reshape(crops.shape[0], -1).tolist(), n_u=int(crops_u.shape[0]),
                 bank=bank_used.tolist(), raws=raws.tolist(), tab=tab, tu=tu.tolist(), imp=imp.tolist() if finite else None,
